@@ -1,5 +1,5 @@
 """C15 — data-path RPC matches replies to requests, round-trips frames, never hangs (model: coq/theories/Rpc)."""
-import json, os, sys
+import glob, json, os, sys
 sys.path.insert(0, os.path.join(os.path.dirname(os.path.abspath(__file__)), "..", "bin"))
 import vlib, rpclib
 
@@ -12,13 +12,21 @@ RULE = ("codec: structured Message values (extremes per field, payload sizes aro
         "distinct by case content")
 
 
+def corpus():
+    out = []
+    for p in sorted(glob.glob(os.path.join(vlib.VERIF, "corpus", "C15", "*.json"))):
+        obj = json.load(open(p))
+        out.append(dict(obj.get("case", obj)))
+    return out
+
+
 def gen(ctx, quick):
     rng = ctx.rng
-    cases = []
-    cases += rpclib.write_cases(rng, 110 if quick else 2500)
-    cases += rpclib.read_cases(rng, 90 if quick else 2500)
+    cases = corpus()
+    cases += rpclib.write_cases(rng, 220 if quick else 3000)
+    cases += rpclib.read_cases(rng, 220 if quick else 3000)
     if quick:
-        cases += rpclib.loop_cases(rng, 36, 36, 24)
+        cases += rpclib.loop_cases(rng, 100, 100, 64)
         cases += [rpclib.gen_raced(rng, n) for n in (1, 2, 5, 16)]
         cases.append(dict(k="race", workers=16, each=40, after=150))
     else:
@@ -168,12 +176,17 @@ def main(ctx, replay=None):
                  theorems=proof.get("theorems", []), exhaustive=False)
     samples = []
     for k in ("write", "read", "loop"):
+        best = None
         for i, c in enumerate(cases):
-            if c["k"] == k and (k != "loop" or c["fault"] != "none"):
-                o = outs.get(i, {})
-                samples.append(dict(case=json.loads(json.dumps(rpclib.clean(c)))[:1] if False else rpclib.clean(c),
-                                    observed={kk: o.get(kk) for kk in ("bytes", "end", "closed", "peerlog", "hung") if kk in o}))
-                break
+            if c["k"] == k and (k != "loop" or (c["fault"] != "none" and not c.get("nowait"))):
+                size = len(json.dumps(rpclib.clean(c)))
+                if best is None or size < best[0]:
+                    best = (size, i)
+        if best:
+            i = best[1]
+            o = outs.get(i, {})
+            samples.append(dict(case=rpclib.clean(cases[i]),
+                                observed={kk: o.get(kk) for kk in ("bytes", "msgs", "end", "closed", "peerlog", "comps", "hung") if kk in o}))
     vlib.write_evidence(ctx, proof, extra, [
         "the model is the loop goroutine's sequential view plus the caller side of operation(); goroutine scheduling, channel capacity "
         "(1024) and the order in which the loop takes requests and responses that are ready at the same time are Go runtime: the harness "
